@@ -122,7 +122,7 @@ func same(typ string, a, b interface{}) bool {
 			return va.Len() == vb.Len()
 		}
 		return true
-	case "err", "any":
+	case "err", "any", "errn", "anyn":
 		if a == nil || b == nil {
 			return a == nil && b == nil
 		}
